@@ -47,7 +47,9 @@ META = {
         "R3: every refid store takes its value from a found registry lookup (`k in R` / R.get tested; R read from the "
         "document/env, or a dict filled - locally or by a helper that returns it - from document.nameids / node ids) or from "
         "document.set_id; a value of document.nameids (None for a name defined twice, read from docutils' source) only under a "
-        "not-None test; otherwise every path to the store has passed an XREF_MISSING warning (directly or through a helper that "
+        "not-None test; the anchor handed to sphinx make_refnode(…, targetid, …) is judged like a refid store, per binding of the value (a "
+        "registry entry, the empty anchor, or a value assigned only after the warning); otherwise every path to the store has "
+        "passed an XREF_MISSING warning (directly or through a helper that "
         "always warns; `not node` is read as `node is None` because docutils' Node.__bool__ returns True). "
         "R4: a manually numbered footnote gets its label as first possible child, an auto footnote is registered with "
         "note_autofootnote instead (docutils inserts the label at index 0), never both; the label text is the footnote's name; all "
@@ -66,6 +68,11 @@ META = {
         "Element.append/insert/extend/+=/replace/slice assignment, which keep .parent in step; emptying a child list is allowed); "
         "a node, or the (object, messages) result of docutils' directive/role lookup (shape re-read from the docutils source), that "
         "is stored in a container on self is not read back on a cache hit and attached. "
+        "R5 also: a function that returns several node collections (docutils' (nodes, messages) convention) does not put the same "
+        "node objects into two of them (a filtered copy of a list still holds the same objects). "
+        "R9: every id MyST itself gives to a node is registered with the document: a node built with ids=[...] or written to "
+        "x['ids'] is passed to note_*_target / set_id on every path; library calls that take a ready-made id and then skip the "
+        "registration (sphinx make_glossary_term(node_id=...), shape re-read from the Sphinx source) get node_id=None. "
         "R6: the first child a new section can receive, on every path, is its nodes.title (interprocedural may-append summary: "
         "direct appends, note_*_target(_, msgnode), create_warning(append_to=), becoming the current node; parameter guards of "
         "helpers evaluated against the call's literal arguments). "
@@ -1996,6 +2003,13 @@ class _Refid:
                 return self._nameids_value(txt, fi, at)
         if isinstance(e, ast.Call) and isinstance(e.func, ast.Attribute) and e.func.attr == "get" and isinstance(e.func.value, ast.Attribute) and e.func.value.attr == "nameids" and _doc_rooted(e.func.value) and idx is None:
             return self._nameids_value(unparse(e), fi, at)
+        if isinstance(e, ast.Subscript) and not isinstance(e.value, ast.Name) and not isinstance(e.slice, ast.Slice) and _doc_rooted(e.value) and unparse(e.value).split(".")[0] in ("self", "stddomain", "document", "env"):
+            return "reg", f"`{short(e, 50)}`: entry of a document/environment registry"
+        if isinstance(e, ast.Call) and isinstance(e.func, ast.Attribute) and e.func.attr == "get" and not isinstance(e.func.value, ast.Name) and _doc_rooted(e.func.value) and unparse(e.func.value).split(".")[0] in ("self", "stddomain", "document", "env"):
+            d = e.args[1] if len(e.args) > 1 else None
+            dflt = d.elts[idx] if isinstance(d, ast.Tuple) and idx is not None and idx < len(d.elts) else d
+            if dflt is None or (isinstance(dflt, ast.Constant) and dflt.value in ("", None)):
+                return "reg", f"`{short(e, 50)}`: entry of a document/environment registry (or its empty default)"
         if isinstance(e, ast.Subscript) and isinstance(e.value, ast.Name):
             if idx is None and isinstance(e.slice, ast.Constant) and isinstance(e.slice.value, int) and not isinstance(_single_value(fi, e.value.id), (ast.Dict, type(None))):
                 # `hit[0]` where hit is itself a looked-up tuple
@@ -2060,7 +2074,7 @@ class _Refid:
         cfg = get_cfg(fi)
         key = unparse(e.slice)
         gs = cfg.guards(cfg.stmt_of(at))
-        found = any(pol and isinstance(t, ast.Compare) and len(t.ops) == 1 and isinstance(t.ops[0], ast.In) and unparse(t.left) == key and unparse(t.comparators[0]) == reg for t, pol in gs)
+        found = any(isinstance(t, ast.Compare) and len(t.ops) == 1 and ((pol and isinstance(t.ops[0], ast.In)) or (not pol and isinstance(t.ops[0], ast.NotIn))) and unparse(t.left) == key and unparse(t.comparators[0]) == reg for t, pol in gs)
         if not found and found_var is not None:
             found = any((nm == found_var and f in ("truthy", "notnone")) for t, pol in gs for nm, f in _truth_facts(t, pol))
         if not found:
@@ -2103,7 +2117,7 @@ class _Refid:
 
 @rule("C03.R3")
 def r3_refid_provenance(corpus: Corpus, rep: Report, tier: str):
-    rep.rule("C03.R3", "every refid store takes an id from a found registry lookup / set_id (a document.nameids value only after a not-None test), or every path to it has issued the XREF_MISSING warning")
+    rep.rule("C03.R3", "every refid store takes an id from a found registry lookup / set_id (a document.nameids value only after a not-None test), or every path to it has issued the XREF_MISSING warning; the anchor given to make_refnode is judged the same way")
     n = 0
     for fi in corpus.all_functions():
         if fi.is_lambda or fi.module.name.endswith("._docs"):
@@ -2116,6 +2130,12 @@ def r3_refid_provenance(corpus: Corpus, rep: Report, tier: str):
                         stores.append((x, x.value))
             elif isinstance(x, ast.Call) and _is_node_type(_ctor_class(fi, x)) and kwarg(x, "refid") is not None:
                 stores.append((x, kwarg(x, "refid")))
+            elif isinstance(x, ast.Call) and _resolved(fi, x.func) == "sphinx.util.nodes.make_refnode":
+                # make_refnode(builder, fromdoc, todoc, targetid, child): targetid becomes the refid / the #anchor
+                a = x.args[3] if len(x.args) > 3 and not any(isinstance(y, ast.Starred) for y in x.args[:4]) else kwarg(x, "targetid")
+                if a is None:
+                    raise Unsupported(f"make_refnode call without a visible targetid argument in {fi.qualname}")
+                stores.append((x, a))
         if not stores:
             continue
         rep.saw_function(fi.fq)
@@ -2126,6 +2146,13 @@ def r3_refid_provenance(corpus: Corpus, rep: Report, tier: str):
             site = fi.module.site(node)
             key = f"{fi.fq}|refid = {short(val, 60)}"
             tr = _Refid(corpus, rep)
+            if isinstance(val, ast.Constant) and val.value == "":
+                rep.ok("C03.R3", key, site, "empty anchor: the link points at the document itself")
+                continue
+            multi = [b for b in _bindings(fi, val.id) if not isinstance(b[0], ast.AugAssign)] if isinstance(val, ast.Name) and val.id not in fi.params else []
+            if len(multi) > 1:
+                _judge_per_binding(corpus, rep, tr, fi, cfg, st, key, site, val.id, multi)
+                continue
             kind, why = tr.id_valued(val, fi, st, None)
             if kind == "optid":
                 rep.violation("C03.R3", key, site, f"{why} and reaches the refid with no not-None test on the way: a link to an ambiguous name gets refid=None, which is no id in the tree, and no 'target not found' warning is issued")
@@ -2145,7 +2172,51 @@ def r3_refid_provenance(corpus: Corpus, rep: Report, tier: str):
                 rep.ok("C03.R3", key, site, "not an id from a registry, but every path to the store has issued the XREF_MISSING warning" + (f" (`not {', '.join(sorted(used))}` read as `is None`: docutils nodes are always true)" if used else ""))
             else:
                 rep.violation("C03.R3", key, site, f"the link target is not taken from a registry ({why}) and some path reaches the store without a 'target not found' warning: the reference can point at an id that does not exist, silently")
-    rep.expect_min("C03.R3", 4, "refid stores in transforms.py (3), myst_refs.py (1), mocking.py (1)")
+    rep.expect_min("C03.R3", 4, "refid stores in transforms.py (3), myst_refs.py (1), mocking.py (1); make_refnode anchors in myst_refs.py (4)")
+
+
+def _judge_per_binding(corpus: Corpus, rep: Report, tr, fi: FunctionInfo, cfg, st, key: str, site: str, name: str, bindings) -> None:
+    """The value has several bindings: each one is either an id from a registry / the empty anchor, or lies on
+    paths that issue the XREF_MISSING warning before the value is used."""
+    is_warn = lambda x: _is_missing_warning(x, corpus, fi)
+    start = ("T", cfg.loops[st]) if st in cfg.loops else ENTRY
+    bstmts = {cfg.stmt_of(b) for b, _, _ in bindings}
+    notes, bad = [], None
+    for b, v, idx in bindings:
+        bst = cfg.stmt_of(b)
+        if v is not None and idx is None and isinstance(v, ast.Constant) and v.value == "":
+            notes.append("'' (no anchor)")
+            continue
+        if v is None:
+            kind, why = "no", f"`{name}` is bound by `{short(b, 40)}`"
+        else:
+            kind, why = tr.id_valued(v, fi, bst, idx)
+        if kind == "reg":
+            notes.append(why)
+            continue
+        if kind == "optid":
+            tested = any(nm == name and f in ("notnone", "truthy") for t, pol in cfg.guards(st) for nm, f in _truth_facts(t, pol))
+            if tested:
+                notes.append(why + ", tested before use")
+                continue
+            bad = (b, why + " and is used without a not-None test")
+            break
+        # not an id from a registry: the warning must lie on every path through this binding
+        reaches = cfg.paths_avoiding(bst, st, lambda x: x in bstmts and x is not bst)
+        if not reaches:
+            continue
+        before, _ = _path_avoiding_with_facts(corpus, fi, start, bst, is_warn)
+        after = cfg.paths_avoiding(bst, st, lambda x: is_warn(x) or (x in bstmts and x is not bst))
+        if before and after and not is_warn(bst):
+            bad = (b, f"`{short(b, 60)}` gives it a value that is not an id from a registry ({why}) on a path without a 'target not found' warning")
+            break
+        notes.append(f"`{short(b, 40)}` only after the XREF_MISSING warning")
+    if bad:
+        rep.violation("C03.R3", key, fi.module.site(bad[0]), f"{bad[1]}: the link can point at an id that does not exist, silently")
+    else:
+        rep.ok("C03.R3", key, site, "; ".join(dict.fromkeys(notes))[:300])
+        for nfi, nst, nwhy in getattr(tr, "_name_sites", []):
+            _judge_name_as_id(nfi, nst, nwhy, rep)
 
 
 def _judge_name_as_id(fi: FunctionInfo, st: ast.AST, why: str, rep: Report) -> None:
@@ -2578,6 +2649,92 @@ def _judge_cache_reads(corpus: Corpus, rep: Report, sfi: FunctionInfo, store: as
         rep.ok("C03.R5", key, site, "the cached nodes are never attached from the cache")
 
 
+def _collection_source(e: ast.expr, fi: FunctionInfo, depth: int = 0) -> str | None:
+    """Canonical text of the node list whose *objects* the expression hands out (copies of the list still hand out
+    the same node objects; deep copies and fresh literals do not).  None when it hands out nothing that is shared."""
+    if depth > 5:
+        return None
+    if isinstance(e, ast.Name):
+        bs = [b for b in _bindings(fi, e.id) if not isinstance(b[0], ast.AugAssign)]
+        if len(bs) == 1 and bs[0][1] is not None and bs[0][2] is None:
+            inner = _collection_source(bs[0][1], fi, depth + 1)
+            return inner if inner is not None else (e.id if isinstance(bs[0][1], (ast.List, ast.ListComp)) and _appended_nodes(fi, e.id) else None)
+        return None
+    if isinstance(e, ast.Attribute) and e.attr == "children":
+        return unparse(e)
+    if isinstance(e, ast.Call) and dotted(e.func) in ("list", "tuple", "sorted", "reversed") and len(e.args) >= 1:
+        return _collection_source(e.args[0], fi, depth + 1)
+    if isinstance(e, ast.Call) and dotted(e.func) == "filter" and len(e.args) == 2:
+        return _collection_source(e.args[1], fi, depth + 1)
+    if isinstance(e, ast.Subscript) and isinstance(e.slice, ast.Slice):
+        return _collection_source(e.value, fi, depth + 1)
+    if isinstance(e, (ast.ListComp, ast.GeneratorExp)) and len(e.generators) == 1 and unparse(e.elt) == unparse(e.generators[0].target):
+        base = _collection_source(e.generators[0].iter, fi, depth + 1)
+        gen = e.generators[0]
+        if base is not None and gen.ifs and "|if " not in base and isinstance(gen.target, ast.Name):
+            import re as _re
+
+            cond = " and ".join(_re.sub(r"\b" + _re.escape(gen.target.id) + r"\b", "_", unparse(c)) for c in gen.ifs)
+            return f"{base}|if {cond}"  # a subset of the source
+        return base
+    return None
+
+
+def _share_nodes(a: str, b: str) -> bool | None:
+    """Do two collection sources hand out common node objects?  (None: cannot tell.)"""
+    ba, _, ca = a.partition("|if ")
+    bb, _, cb = b.partition("|if ")
+    if ba != bb:
+        return False
+    if not ca or not cb or ca == cb:
+        return True
+    strip = lambda x: x[1:-1] if x.startswith("(") and x.endswith(")") else x
+    if ca in (f"not {cb}", f"not ({cb})") or cb in (f"not {ca}", f"not ({ca})") or strip(ca) == f"not {strip(cb)}":
+        return False  # complementary filters partition the source
+    return None
+
+
+def _appended_nodes(fi: FunctionInfo, name: str) -> bool:
+    return any(isinstance(recv, ast.Name) and recv.id == name for _, recv, _, _ in _attach_events(fi))
+
+
+def _returned_collections_disjoint(corpus: Corpus, rep: Report) -> None:
+    """A function that hands out several node collections at once (docutils' `(nodes, messages)` convention: the
+    caller attaches both) must not put the same node objects into two of them."""
+    n = 0
+    for fi in corpus.all_functions():
+        if fi.is_lambda or fi.module.name.endswith(("._docs", ".parse_html")) or "docutils.nodes" not in set(fi.module.imports.values()):
+            continue
+        for r in fi.local_nodes():
+            if not (isinstance(r, ast.Return) and isinstance(r.value, ast.Tuple) and len(r.value.elts) >= 2):
+                continue
+            srcs = [(el, _collection_source(el, fi)) for el in r.value.elts]
+            srcs = [(el, sname) for el, sname in srcs if sname is not None]
+            if not srcs:
+                continue
+            n += 1
+            rep.saw_function(fi.fq)
+            key = f"{fi.fq}|returned node collections are disjoint|{short(r, 60)}"
+            site = fi.module.site(r)
+            dup = None
+            unsure = None
+            for i, (a, sa) in enumerate(srcs):
+                for b, sb in srcs[i + 1:]:
+                    sh = _share_nodes(sa, sb)
+                    if sh:
+                        dup = (a, b, sa.partition("|if ")[0])
+                    elif sh is None:
+                        unsure = (a, b)
+            if unsure and not dup:
+                rep.error("C03.R5", f"{site} {key}: cannot tell whether `{short(unsure[0], 40)}` and `{short(unsure[1], 40)}` (two filtered views of one node list) overlap")
+            elif dup:
+                rep.violation("C03.R5", key, site, f"`{short(dup[0], 40)}` and `{short(dup[1], 40)}` both hand out node objects of `{dup[2]}` (a filtered copy of a list still contains the same objects): a caller that attaches both collections, as docutils directives do with (nodes, messages), inserts those nodes twice")
+            else:
+                rep.ok("C03.R5", key, site, "the elements hand out disjoint node objects (" + ", ".join(sorted({x for _, x in srcs}))[:120] + ")")
+    if n < 1:
+        rep.error("C03.R5", "expected at least MockInliner.parse returning (nodes, messages)")
+
+
 def _attach_and_return(corpus: Corpus, rep: Report) -> None:
     """create_warning(..., append_to=X) attaches the message node to X *and* returns it: a result obtained
     that way must not be attached again (directly, or by a caller that attaches the returned collection)."""
@@ -2639,7 +2796,7 @@ def _attach_and_return(corpus: Corpus, rep: Report) -> None:
 
 @rule("C03.R5")
 def r5_single_parent(corpus: Corpus, rep: Report, tier: str):
-    rep.rule("C03.R5", "an existing node is re-attached only after being detached, exactly once; children are moved out of a node at most once per path and the old owner is discarded on every path; a node already attached by create_warning(append_to=) is not attached again; a node built outside a loop is not attached inside it without being rebuilt; child lists are changed only through the docutils API; node-bearing results cached on self are not attached from the cache")
+    rep.rule("C03.R5", "an existing node is re-attached only after being detached, exactly once; children are moved out of a node at most once per path and the old owner is discarded on every path; a node already attached by create_warning(append_to=) is not attached again; a node built outside a loop is not attached inside it without being rebuilt; child lists are changed only through the docutils API; node-bearing results cached on self are not attached from the cache; node collections returned together are disjoint")
     mv = _Moves(corpus)
     n_inst = 0
     for modname in SURGERY_MODULES:
@@ -2748,6 +2905,7 @@ def r5_single_parent(corpus: Corpus, rep: Report, tier: str):
     _built_once_attached_in_loop(corpus, rep)
     _child_list_writes(corpus, rep)
     _cached_node_results(corpus, rep)
+    _returned_collections_disjoint(corpus, rep)
     rep.expect_min("C03.R5", 3, "CollectFootnotes re-attach; children moves in ResolveAnchorIds.apply (2) and the Sphinx resolver (9 judged instances on the pinned tree)")
 
 
@@ -2934,7 +3092,115 @@ def r8_no_throwaway_render_root(corpus: Corpus, rep: Report, tier: str):
 
 
 
-RULES = [r1_structural_guard, r2_table_width, r3_refid_provenance, r4_footnote_shape, r5_single_parent, r6_section_title_first, r7_ids_moved_not_copied, r8_no_throwaway_render_root]
+
+# ---------------------------------------------------------------------------
+# R9 ids are allocated through the document's registry
+
+ID_TAKING_CALLS = {
+    # library call -> (sibling source, function, parameter): when that parameter is given, the library uses the id
+    # as it is and does NOT register it with the document (re-verified against the sibling source)
+    "sphinx.domains.std.make_glossary_term": ("sphinx/domains/std/__init__.py", "make_glossary_term", "node_id", 5),
+}
+REGISTERING_CALLS = ("note_explicit_target", "note_implicit_target", "set_id")
+
+
+def _given_id_skips_registration(corpus: Corpus, rel: str, fname: str, pname: str) -> bool | None:
+    """In the library function: the branch taken when ``pname`` is truthy does not register the node, the other does."""
+
+    def compute():
+        m = corpus.sibling(rel)
+        f = m.functions.get(fname)
+        if f is None:
+            return None
+        for n in ast.walk(f.node):
+            if isinstance(n, ast.If) and unparse(n.test) in (pname, f"{pname} is not None"):
+                reg = lambda body: any(isinstance(c, ast.Call) and isinstance(c.func, ast.Attribute) and c.func.attr in REGISTERING_CALLS for st in body for c in ast.walk(st))
+                return (not reg(n.body)) and reg(n.orelse)
+        return None
+
+    return corpus.cache(("c03-id-taking", rel, fname), compute)
+
+
+def _registered_after(fi: FunctionInfo, cfg, st, var: str | None) -> bool:
+    """Every path from ``st`` to the exit passes document.note_*_target(var, ...) / set_id(var)."""
+    regs = set()
+    for c in fi.local_nodes():
+        if isinstance(c, ast.Call) and isinstance(c.func, ast.Attribute) and c.func.attr in REGISTERING_CALLS and c.args and (var is None or unparse(c.args[0]) == var):
+            regs.add(cfg.stmt_of(c))
+    if st in regs:
+        return True
+    return bool(regs) and not cfg.paths_avoiding(st, EXIT, lambda x: x in regs)
+
+
+@rule("C03.R9")
+def r9_ids_registered(corpus: Corpus, rep: Report, tier: str):
+    rep.rule("C03.R9", "every id MyST gives to a node itself is registered with the document (note_*_target / set_id), so that the next id cannot collide with it")
+    n = 0
+    for fi in corpus.all_functions():
+        if fi.is_lambda or fi.module.name.endswith(("._docs", ".parse_html")):
+            continue
+        cfg = None
+        for c in fi.local_nodes():
+            site = fi.module.site(c)
+            # (a) a node constructed with ids=[...]
+            if isinstance(c, ast.Call) and _is_node_type(_ctor_class(fi, c)) and kwarg(c, "ids") is not None:
+                kw = kwarg(c, "ids")
+                if isinstance(kw, (ast.List, ast.Tuple)) and not kw.elts:
+                    continue
+                if isinstance(kw, ast.Subscript) and isinstance(kw.slice, ast.Constant) and kw.slice.value == "ids":
+                    continue  # handed over from another node: R7
+                n += 1
+                cfg = cfg or get_cfg(fi)
+                p_ = parent(c)
+                var = unparse(p_.targets[0]) if isinstance(p_, ast.Assign) and len(p_.targets) == 1 else None
+                key = f"{fi.fq}|node built with ids= is registered|{short(c, 60)}"
+                rep.saw_function(fi.fq)
+                if var is not None and _registered_after(fi, cfg, cfg.stmt_of(c), var):
+                    rep.ok("C03.R9", key, site, f"`{var}` is registered with the document on every path")
+                else:
+                    rep.violation("C03.R9", key, site, f"the node gets `ids={short(kw, 30)}` but is not registered with the document (note_explicit_target / set_id) on every path: document.ids does not know the id, so a later node can be given the same one")
+            # (b) library calls that take a ready-made id and then skip the registration
+            elif isinstance(c, ast.Call) and _resolved(fi, c.func) in ID_TAKING_CALLS:
+                rel, fname, pname, pos = ID_TAKING_CALLS[_resolved(fi, c.func)]
+                n += 1
+                rep.saw_function(fi.fq)
+                rep.saw_sibling(rel)
+                cfg = cfg or get_cfg(fi)
+                a = kwarg(c, pname) or (c.args[pos] if len(c.args) > pos else None)
+                key = f"{fi.fq}|{fname}({pname}=...) lets the library allocate and register the id|{short(c, 40)}"
+                fact = _given_id_skips_registration(corpus, rel, fname, pname)
+                if a is None or (isinstance(a, ast.Constant) and a.value is None):
+                    rep.ok("C03.R9", key, site, f"{pname}=None: the library makes a unique id and registers it")
+                elif fact is None:
+                    rep.error("C03.R9", f"{site} {key}: {fname} in the installed library no longer has the `if {pname}:` shape (sibling changed)")
+                elif fact is False:
+                    rep.ok("C03.R9", key, site, "the installed library registers a given id as well")
+                else:
+                    p_ = parent(c)
+                    var = unparse(p_.targets[0]) if isinstance(p_, ast.Assign) and len(p_.targets) == 1 else None
+                    if var is not None and _registered_after(fi, cfg, cfg.stmt_of(c), var):
+                        rep.ok("C03.R9", key, site, "id supplied by MyST, node registered by MyST afterwards")
+                    else:
+                        rep.violation("C03.R9", key, site, f"`{pname}={short(a, 40)}` is supplied: {fname} then uses the id as it is and skips document.note_explicit_target, and MyST does not register the node either: the id is not in document.ids and the next equal term gets the same id")
+            # (c) direct writes to x["ids"]
+            elif isinstance(c, ast.Call) and isinstance(c.func, ast.Attribute) and c.func.attr in ("append", "extend", "insert") and isinstance(c.func.value, ast.Subscript) and isinstance(c.func.value.slice, ast.Constant) and c.func.value.slice.value == "ids":
+                if c.args and isinstance(c.args[-1], ast.Subscript) and isinstance(c.args[-1].slice, ast.Constant) and c.args[-1].slice.value == "ids":
+                    continue  # hand-over: R7
+                n += 1
+                cfg = cfg or get_cfg(fi)
+                var = unparse(c.func.value.value)
+                key = f"{fi.fq}|id written into {var}['ids'] is registered|{short(c, 60)}"
+                rep.saw_function(fi.fq)
+                if _registered_after(fi, cfg, cfg.stmt_of(c), var):
+                    rep.ok("C03.R9", key, site)
+                else:
+                    rep.violation("C03.R9", key, site, f"`{short(c, 50)}` gives the node an id without registering it with the document: a later node can be given the same id")
+    rep.expect_min("C03.R9", 2, "the equation target built with ids= (sphinx_.py) and the make_glossary_term call (render_dl)")
+
+
+
+
+RULES = [r1_structural_guard, r2_table_width, r3_refid_provenance, r4_footnote_shape, r5_single_parent, r6_section_title_first, r7_ids_moved_not_copied, r8_no_throwaway_render_root, r9_ids_registered]
 
 
 # ---------------------------------------------------------------------------
@@ -3133,6 +3399,31 @@ def mutants(corpus: Corpus):
         add("c03-role-lookup-result-cached", "C03.R5", base, st, f"if name not in self.__dict__.setdefault('_role_cache', {{}}):\n{ind}    self._role_cache[name] = {_stmt_text(base, st.value)}\n{ind}{unparse(st.targets[0])} = self._role_cache[name]", "node-bearing result cached")
     else:
         out.append(("c03-role-lookup-result-cached", "roles.role lookup not found"))
+    # ---- round 8: anchors given to make_refnode, ids not registered, overlapping returned collections
+    f = refs.func("MystReferenceResolver.resolve_myst_ref_doc")
+    st = find_node(f, lambda n: isinstance(n, ast.Expr) and isinstance(n.value, ast.Call) and unparse(n.value.func) == "self.log_warning" and "local id not found" in unparse(n.value))
+    add("c03-docref-missing-anchor-warning-dropped", "C03.R3", refs, st, "pass", "resolve_myst_ref_doc")
+    f = refs.func("MystReferenceResolver._resolve_ref_nested")
+    c = find_node(f, lambda n: isinstance(n, ast.Call) and unparse(n.func) == "make_refnode" and len(n.args) > 3)
+    add("c03-ref-anchor-is-the-raw-target", "C03.R3", refs, c.args[3] if c is not None else None, "node['reftarget']", "_resolve_ref_nested")
+    f = base.func("DocutilsRenderer.render_dl")
+    c = find_node(f, lambda n: isinstance(n, ast.Call) and unparse(n.func) == "make_glossary_term" and kwarg(n, "node_id") is not None)
+    add("c03-glossary-term-id-supplied-by-myst", "C03.R9", base, kwarg(c, "node_id") if c is not None else None, "nodes.make_id('term-' + term.astext())", "make_glossary_term")
+    sx = corpus.mod("mdit_to_docutils.sphinx_")
+    f = sx.func("SphinxRenderer.add_math_target")
+    st = find_node(f, lambda n: isinstance(n, ast.Expr) and unparse(n.value) == "self.document.note_explicit_target(target)")
+    add("c03-equation-target-not-registered", "C03.R9", sx, st, "pass", "add_math_target")
+    f = base.func("DocutilsRenderer.render_math_block_label")
+    st = find_node(f, lambda n: isinstance(n, ast.Expr) and unparse(n.value) == "self.document.note_explicit_target(node, node)")
+    add("c03-math-label-id-written-directly", "C03.R9", base, st, "node['ids'].append(nodes.make_id(name))", "render_math_block_label")
+    f = mk.func("MockInliner.parse")
+    r_ = find_node(f, lambda n: isinstance(n, ast.Return) and isinstance(n.value, ast.Tuple) and len(n.value.elts) == 2 and unparse(n.value.elts[0]).endswith(".children"))
+    if r_ is not None:
+        ch = unparse(r_.value.elts[0])
+        add("c03-inline-messages-returned-in-both-lists", "C03.R5", mk, r_.value.elts[1], f"[n for n in {ch} if isinstance(n, nodes.system_message)]", "returned node collections")
+        add("c03-inline-messages-filtered-into-second-list", "C03.R5", mk, r_.value.elts[1], f"list(filter(lambda n: isinstance(n, nodes.system_message), {ch}))", "returned node collections")
+    else:
+        out.append(("c03-inline-messages-returned-in-both-lists", "MockInliner.parse no longer returns (container.children, ...)"))
     # ---- R8: rendering into a node that is only read as text / never attached
     f = base.func("DocutilsRenderer.render_image")
     st = find_node(f, lambda n: isinstance(n, ast.Assign) and isinstance(n.value, ast.Call) and unparse(n.value.func) == "self.renderInlineAsText")
